@@ -54,36 +54,38 @@ func codecCore(ops *typeOps) {
 	vrt.Check(err2 == nil && k2 == n, "C04 EncodeObject(value) succeeds")
 	vrt.Check(vrt.BytesEq(buf2, ref), "C16 re-encoding (by value) yields the same bytes")
 
-	// ---- short buffers (C04) ----
+	// ---- short buffers (C04): lengths 0, n/2, n-1; with cap==len and with spare capacity ----
 	if n > 0 {
-		var ks int
-		switch vrt.Choice("short", 3) {
-		case 0:
-			ks = 0
-		case 1:
-			ks = n - 1
-		default:
-			ks = n / 2
-		}
-		vrt.SetOwner("buf")
-		big := vrt.Bytes("short", n+bufPad)
-		bsnap := make([]byte, len(big))
-		copy(bsnap, big)
-		vrt.SetOwner("impl")
-		var kk int
-		var ee error
-		spare := vrt.Choice("sparecap", 2)
-		if spare == 0 {
-			kk, ee = EncodeObject(big[:ks:ks], nil, pv)
-		} else {
-			kk, ee = EncodeObject(big[:ks], nil, pv) // cap(buf) > len(buf)
-		}
-		vrt.Check(ee != nil, "C04 short buffer must yield an error")
-		vrt.Check(kk == 0 || ee != nil, "C04 short buffer must not report a truncated message as success")
-		if spare == 0 {
-			vrt.Check(vrt.BytesEq(big[ks:], bsnap[ks:]), "C04 no write past a short buffer (cap==len)")
-		} else {
-			vrt.Check(vrt.BytesEq(big[ks:], bsnap[ks:]), "C04 no write past a short buffer (spare capacity)")
+		for vi := 0; vi < 6; vi++ {
+			ks := 0
+			switch vi % 3 {
+			case 1:
+				ks = n - 1
+			case 2:
+				ks = n / 2
+			}
+			if vi%3 == 2 && (ks == 0 || ks == n-1) {
+				continue
+			}
+			vrt.SetOwner("buf")
+			big := vrt.Bytes("short", n+bufPad)
+			bsnap := make([]byte, len(big))
+			copy(bsnap, big)
+			vrt.SetOwner("impl")
+			var kk int
+			var ee error
+			if vi < 3 {
+				kk, ee = EncodeObject(big[:ks:ks], nil, pv)
+			} else {
+				kk, ee = EncodeObject(big[:ks], nil, pv) // cap(buf) > len(buf)
+			}
+			vrt.Check(ee != nil, "C04 short buffer must yield an error")
+			vrt.Check(kk == 0, "C04 short buffer must not report a (truncated) length")
+			if vi < 3 {
+				vrt.Check(vrt.BytesEq(big[ks:], bsnap[ks:]), "C04 no write past a short buffer (cap==len)")
+			} else {
+				vrt.Check(vrt.BytesEq(big[ks:], bsnap[ks:]), "C04 no write past a short buffer (spare capacity)")
+			}
 		}
 		vrt.Reach("short")
 	}
